@@ -9,8 +9,12 @@ func init() {
 // zzH_C20_conv: zero-copy conversions keep content and length, share memory, expose no capacity.
 func zzH_C20_conv() {
 	// []byte -> string, from a sub-slice with spare capacity
-	l := zzInt("len", 0, 40)
-	c := zzInt("cap", l, 64)
+	maxLen, maxStr := 40, 40
+	if zzParam("HUGE") == 1 {
+		maxLen, maxStr = 1<<20, 1<<31
+	}
+	l := zzInt("len", 0, maxLen)
+	c := zzInt("cap", l, 2*maxLen+24)
 	base := zzBytesCap("b", l, c)
 	lo := zzInt("lo", 0, l)
 	hi := zzInt("hi", lo, l)
@@ -27,7 +31,7 @@ func zzH_C20_conv() {
 	zzAssert(len(BinaryToString(base[:0])) == 0, "BinaryToString(empty) is not empty")
 
 	// string -> []byte, from a substring of a larger string
-	n := zzInt("slen", 0, 40)
+	n := zzInt("slen", 0, maxStr)
 	str := zzString("s", n)
 	lo2 := zzInt("lo2", 0, n)
 	hi2 := zzInt("hi2", lo2, n)
